@@ -12,9 +12,10 @@ type ModSet struct {
 	Top   bool
 	Alloc bool
 	Keys  map[string]bool
+	Fresh map[string]bool // keys written only on objects allocated inside the region itself
 }
 
-func newModSet() *ModSet { return &ModSet{Keys: map[string]bool{}} }
+func newModSet() *ModSet { return &ModSet{Keys: map[string]bool{}, Fresh: map[string]bool{}} }
 
 func (m *ModSet) add(o *ModSet) bool {
 	if o == nil {
@@ -32,6 +33,12 @@ func (m *ModSet) add(o *ModSet) bool {
 	for k := range o.Keys {
 		if !m.Keys[k] {
 			m.Keys[k] = true
+			ch = true
+		}
+	}
+	for k := range o.Fresh {
+		if !m.Fresh[k] {
+			m.Fresh[k] = true
 			ch = true
 		}
 	}
@@ -125,20 +132,21 @@ func (e *Engine) storeKeys(m *ModSet, addr ssa.Value, t types.Type) {
 }
 
 // instrMods accumulates the keys written by one instruction (callees resolved through fnMods).
-func (e *Engine) instrMods(m *ModSet, in ssa.Instruction, self *ssa.Function) {
+func (e *Engine) instrMods(m *ModSet, in ssa.Instruction, self *ssa.Function, region map[*ssa.BasicBlock]bool) {
 	switch in := in.(type) {
 	case *ssa.Store:
+		if a, ok := rootOfAddr(in.Addr).(*ssa.Alloc); ok && (region == nil || region[a.Block()]) {
+			// a store into an object allocated inside the region: existing objects are unaffected
+			f := &ModSet{Keys: m.Fresh}
+			e.storeKeys(f, in.Addr, in.Val.Type())
+			return
+		}
 		e.storeKeys(m, in.Addr, in.Val.Type())
 	case *ssa.Alloc:
 		m.Alloc = true
-		if !in.Heap {
-			// zero-initialisation of a local writes its keys
-			el := in.Type().Underlying().(*types.Pointer).Elem()
-			e.storeKeys(m, in, el)
-		} else {
-			el := in.Type().Underlying().(*types.Pointer).Elem()
-			e.storeKeys(m, in, el)
-		}
+		el := in.Type().Underlying().(*types.Pointer).Elem()
+		f := &ModSet{Keys: m.Fresh}
+		e.storeKeys(f, in, el)
 	case *ssa.MakeSlice:
 		m.Alloc = true
 		e.addElemKeys(m, in.Type().Underlying().(*types.Slice).Elem(), 0)
@@ -325,7 +333,7 @@ func (e *Engine) fnMods(f *ssa.Function) *ModSet {
 	}
 	for _, b := range f.Blocks {
 		for _, in := range b.Instrs {
-			e.instrMods(m, in, f)
+			e.instrMods(m, in, f, nil)
 		}
 	}
 	for _, an := range f.AnonFuncs {
@@ -364,7 +372,7 @@ func (e *Engine) blocksMods(f *ssa.Function, blocks map[*ssa.BasicBlock]bool) *M
 	m := newModSet()
 	for b := range blocks {
 		for _, in := range b.Instrs {
-			e.instrMods(m, in, f)
+			e.instrMods(m, in, f, blocks)
 		}
 	}
 	return m
